@@ -7,6 +7,10 @@ HOOK_COMMITS = ["2c68a33", "da4e8eb"]
 
 # id -> (engine, level, technique, level text, level note)
 CHECKS = {
+ "C06": ("bubble", "fault_enumeration",
+         "Close/RemoveRealm injected at every step boundary and inside every step of a script; returns / no panic for 2 virtual hours / GOODBYE-or-EOF / clean refusal of later attaches / no goroutine left / bystander realm served",
+         "runtime monitor with fault enumeration: for each generated base script (calls with armed timers, publications, kills, a half-done handshake, a silent peer, a stalled subscriber with a tiny socket buffer) the shutdown is invoked at every step boundary and together with every step's message (exhaustive over those crash points for that script); the bubble's quiescence, deadlock and leak detection decide",
+         "instants between two machine instructions are reached only statistically by the inside-step injections; evidence reports the number of injection points"),
  "C09": ("bubble", "exploration",
          "handshake reference predicate with the harness's own HMAC/PBKDF2/ed25519 verification; replayed transcripts; inertness and identity-field monitors",
          "runtime monitor: WELCOME is accepted only when the reference predicate holds for this very handshake (first message HELLO, realm existing or template-creatable, a client role, first configured offered method, response valid for the CHALLENGE just issued); refused peers must be inert (no reply, no event at the observer, session count unchanged) and disconnected; identity fields in WELCOME, on_join and wamp.session.get must equal what router and authenticator assigned, never smuggled HELLO details",
